@@ -310,6 +310,7 @@ func (d *db) GetSequenceUpdates(prefixKey string) (SequenceWaiter, error) {
 	d.getSequenceUpdatesCounter.Add(1)
 
 	sw := d.sequenceWaiterTracker.AddSequenceWaiter(prefixKey)
+	verifYield("sequence.waiter.added", DB(d))
 
 	// First read last key in the sequence
 	it, err := d.kv.KeyRangeScanReverse(fmt.Sprintf("%s-%020d", prefixKey, 0),
